@@ -141,3 +141,18 @@ package caskettls
 //@ use @verif/specs/stdlib.spec:stdlib
 //@ func normalizedName
 //@   pure
+
+//@ unit default_tls_params frames=on props=C06 nilchecks=on filter=`caskettls\.SetDefaultTLSParams$`
+//@ // C06 "defaults: min TLS1.2, cipher list, FALLBACK_SCSV first": what a configuration looks like after the defaults were
+//@ // filled in. TLS_FALLBACK_SCSV is 0x5600 = 22016, TLS 1.2 is 0x0303 = 771, TLS 1.3 is 0x0304 = 772 (crypto/tls constants).
+//@ func getPreferredDefaultCiphers
+//@   ensures len(result) >= 1
+//@ func SetDefaultTLSParams
+//@   requires config != nil
+//@   modifies Config.Ciphers, Config.CurvePreferences, Config.ProtocolMinVersion, Config.ProtocolMaxVersion, Config.PreferServerCipherSuites, E:uint16
+//@   ensures [fallback_scsv_first] len(config.Ciphers) >= 2 && config.Ciphers[0] == 22016
+//@   ensures [configured_ciphers_follow_in_their_order] len(old(config.Ciphers)) > 0 ==> (len(config.Ciphers) == len(old(config.Ciphers)) + 1 && forall(k, 0, len(old(config.Ciphers)), config.Ciphers[k+1] == old(config.Ciphers[k])))
+//@   ensures [minimum_version_defaults_to_tls12] (old(config.ProtocolMinVersion) == 0 ==> config.ProtocolMinVersion == 771) && (old(config.ProtocolMinVersion) != 0 ==> config.ProtocolMinVersion == old(config.ProtocolMinVersion))
+//@   ensures [maximum_version_defaults_to_tls13] (old(config.ProtocolMaxVersion) == 0 ==> config.ProtocolMaxVersion == 772) && (old(config.ProtocolMaxVersion) != 0 ==> config.ProtocolMaxVersion == old(config.ProtocolMaxVersion))
+//@   ensures [server_order_preferred] config.PreferServerCipherSuites
+//@   ensures [curves_default_only_when_unset] len(old(config.CurvePreferences)) > 0 ==> config.CurvePreferences == old(config.CurvePreferences)
